@@ -1,7 +1,6 @@
 import Driver.Util
 open Lean Replicat
-namespace Driver
-
+namespace Driver.HChunk
 def chunkParams (j : Json) : Except String (CParams × Hash) := do
   let mn ← getNat j "min"
   let mx ← getNat j "max"
@@ -51,4 +50,6 @@ def handleChunk (op : String) (j : Json) : Except String Json := do
     pure (Json.mkObj [("h", Json.str (toString (clmulHash key w)))])
   | _ => throw s!"unknown op {op}"
 
-end Driver
+end Driver.HChunk
+
+def Driver.handleChunk := Driver.HChunk.handleChunk
